@@ -221,7 +221,11 @@ def check_elf(e, expect_type=None, execstack=False, script=False):
         nz = [s for s in tls_secs if s.size] or tls_secs
         lo = min(s.addr for s in nz)
         hi = max(s.addr + s.size for s in nz)
-        if g.vaddr != lo or g.vaddr + g.memsz != hi:
+        # zero-size TLS sections have an address too (an empty, strongly aligned .tbss input): the segment may cover the hull
+        # with or without them
+        lo_all = min(s.addr for s in tls_secs)
+        hi_all = max(s.addr + s.size for s in tls_secs)
+        if (g.vaddr, g.vaddr + g.memsz) not in ((lo, hi), (lo_all, hi_all), (lo, hi_all)):
             bad("TLS-range", f"PT_TLS [0x{g.vaddr:x},0x{g.vaddr + g.memsz:x}) is not the hull [0x{lo:x},0x{hi:x}) of the SHF_TLS sections")
         if g.filesz > g.memsz:
             bad("TLS-filesz", f"PT_TLS p_filesz > p_memsz: {g}")
